@@ -34,6 +34,23 @@ ASSUMPTIONS = [
 
 MODE_HID = 900
 
+
+def reg_fields(r):
+    """[ev, hid, prio, body, registered data kwargs, registered queue index or None, condition [k, v] or None]"""
+    r = list(r) + [[], None, None][len(r) - 4:] if len(r) < 7 else list(r)
+    return r
+
+
+def canon_args(kwargs):
+    return sorted([int(k[1:]), v] for k, v in kwargs.items() if k[:1] == "k" and k[1:].isdigit())
+
+
+def merged_expect(posted, hkw):
+    d = dict((k, v) for k, v in posted)
+    for k, v in hkw:
+        d[k] = v
+    return sorted([k, v] for k, v in d.items())
+
 # ------------------------------------------------------------------------------------------------
 # worker state
 _W = {"rig": None, "mrig": None, "patched": False}
@@ -96,6 +113,7 @@ def _patch():
         q = run.num(queue)
         psn = run.mode_psn if getattr(_coroutine, "_c02_mode", False) else kwargs.get("_psn")
         run.log.append(["I", psn, _coroutine._c02_hid, q])
+        run.log.append(["A", canon_args(kwargs)])
         run.in_adapter = True
         try:
             return o_adapter(self, _coroutine, queue, _q=q, **kwargs)
@@ -110,6 +128,7 @@ def _patch():
             return None
         queue = kwargs.get("queue")
         run.log.append(["I", kwargs.get("_psn"), MODE_HID, run.num(queue)])
+        run.log.append(["A", canon_args(kwargs)])
         was = self._starting or self._active
         run.in_mode = self.name
         try:
@@ -155,6 +174,15 @@ class Run:
         self.qposts = []
         self.shared_used = False
         self.evname = {}
+        self.posts = {}
+        self.pre = []
+
+    def preallocate(self, n):
+        from mpf.core.events import QueuedEvent
+        for _ in range(n):
+            q = QueuedEvent(self.em.debug_log)
+            self.pre.append(q)
+            self.num(q)
 
     def name(self, ev):
         return self.evname.get(ev, "%s_e%d" % (self.prefix, ev))
@@ -210,9 +238,15 @@ class Run:
             elif k == "PQ":
                 psn = self.alloc()
                 kw = {"_psn": psn}
+                data = a[3] if len(a) > 3 else []
+                for k, v in data:
+                    kw["k%d" % k] = v
+                shq = None
                 if a[2] and own is not None:
                     kw["queue"] = own
                     self.shared_used = True
+                    shq = self.qnum[id(own)]
+                self.posts[str(psn)] = [canon_args(kw), shq, a[1]]
                 self.qposts.append(psn)
                 self.log.append(["Q", psn])
                 self.em.post_queue(self.name(a[1]), self.make_cb(psn), **kw)
@@ -230,6 +264,7 @@ class Run:
             psn = self.mode_psn if mode_handler else kwargs.get("_psn")
             if queue is not None:
                 self.log.append(["I", psn, hid, self.num(queue)])
+                self.log.append(["A", canon_args(kwargs)])
             else:
                 self.log.append(["P", psn, hid])
             self.execute(acts, queue)
@@ -247,11 +282,18 @@ class Run:
         coro._c02_mode = mode_handler
         return coro
 
-    def register(self, ev, hid, prio, body, mode_handler=False):
+    def register(self, ev, hid, prio, body, hkw=(), hq=None, cond=None, mode_handler=False):
+        name = self.name(ev)
+        if cond is not None:
+            name += "{k%d==%d}" % (cond[0], cond[1])
+        kw = {"k%d" % k: v for k, v in hkw}
+        if hq is not None:
+            kw["queue"] = self.pre[hq]
+            self.shared_used = True
         if body[0] == "s":
-            self.keys[hid] = self.em.add_handler(self.name(ev), self.make_sync(hid, body[1], mode_handler), priority=prio)
+            self.keys[hid] = self.em.add_handler(name, self.make_sync(hid, body[1], mode_handler), priority=prio, **kw)
         else:
-            self.keys[hid] = self.em.add_async_handler(self.name(ev), self.make_async(hid, body[1], mode_handler), priority=prio)
+            self.keys[hid] = self.em.add_async_handler(name, self.make_async(hid, body[1], mode_handler), priority=prio, **kw)
 
     def observe(self, tasks):
         if self.failed:
@@ -324,12 +366,17 @@ def gen_actions(rng, ev, nev, hids, in_queue_handler, kinds):
         elif r < 0.90 and ev < nev:
             tgt = rng.randint(ev + 1, nev)
             if kinds[tgt] == "q":
-                acts.append(["PQ", tgt, in_queue_handler and rng.random() < 0.12])
+                acts.append(["PQ", tgt, in_queue_handler and rng.random() < 0.12, gen_kw(rng)])
             else:
                 acts.append(["PP", tgt])
         elif r < 0.97 and hids:
             acts.append(["RM", rng.choice(hids)])
     return acts
+
+
+def gen_kw(rng):
+    """data kwargs over a small key range so that posted and registered keys collide"""
+    return [[rng.randint(1, 3), rng.randint(0, 2)] for _ in range(rng.choice([0, 0, 1, 1, 2, 3]))]
 
 
 def gen_queue(rng, tier, i):
@@ -351,13 +398,24 @@ def gen_queue(rng, tier, i):
             body = ["a", rng.random() < 0.6]
         else:
             body = ["s", gen_actions(rng, e, nev, hids, kinds[e] == "q", kinds)]
-        regs.append([e, hid, prio, body])
+        hkw, hq, cond = [], None, None
+        if kinds[e] == "q":
+            if rng.random() < 0.45:
+                d = {}
+                for k, v in gen_kw(rng) or [[rng.randint(1, 3), rng.randint(0, 2)]]:
+                    d[k] = v                      # a Python call cannot repeat a keyword
+                hkw = [[k, v] for k, v in d.items()]
+            if rng.random() < 0.03:
+                hq = rng.randrange(2)              # registered with queue=<object allocated before the run>
+            if rng.random() < 0.2:
+                cond = [rng.randint(1, 3), rng.randint(0, 2)]
+        regs.append([e, hid, prio, body, hkw, hq, cond])
 
     def posts(k):
         out = []
         for _ in range(k):
             e = rng.randint(1, nev)
-            out.append(["PQ", e, False] if kinds[e] == "q" else ["PP", e])
+            out.append(["PQ", e, False, gen_kw(rng)] if kinds[e] == "q" else ["PP", e])
         return out
     env = [posts(rng.choice([1, 1, 2, 3]))]
     for _ in range(rng.randint(1, 7)):
@@ -369,7 +427,7 @@ def gen_queue(rng, tier, i):
         elif r < 0.9 and hids:
             env.append([["RM", rng.choice(hids)]] + posts(rng.choice([0, 1])))
         else:
-            env.append([["CN", rng.randrange(5)], ["PQ", 1, False]])
+            env.append([["CN", rng.randrange(5)], ["PQ", 1, False, gen_kw(rng)]])
     if rng.random() < 0.7:                # fair clearing: release everything that is still outstanding
         env += [[["CN", rng.randrange(3)]] for _ in range(rng.choice([6, 10, 14]))]
     return {"kinds": {str(k): v for k, v in kinds.items()}, "regs": regs, "env": env}
@@ -388,8 +446,10 @@ def run_queue(case):
     CUR = run
     try:
         try:
-            for ev, hid, prio, body in case["regs"]:
-                run.register(ev, hid, prio, body)
+            regs = [reg_fields(r) for r in case["regs"]]
+            run.preallocate(max([r[5] + 1 for r in regs if r[5] is not None] + [0]))
+            for ev, hid, prio, body, hkw, hq, cond in regs:
+                run.register(ev, hid, prio, body, hkw, hq, cond)
             for batch in case["env"]:
                 if run.aborted:
                     break
@@ -397,7 +457,7 @@ def run_queue(case):
                 rig.advance(0.125)
         except Exception as e:          # an exception escaped from the event loop: the machine is gone
             out = run.observe([])
-            out.update(qposts=run.qposts, shared=run.shared_used,
+            out.update(qposts=run.qposts, shared=run.shared_used, posts=run.posts,
                        loop_exception="%s: %s" % (type(e).__name__, str(e)[:300]))
             run.aborted = True
             _drop_rig("rig")
@@ -406,6 +466,7 @@ def run_queue(case):
         out = run.observe(tasks)
         out["qposts"] = run.qposts
         out["shared"] = run.shared_used
+        out["posts"] = run.posts
         try:
             run.cleanup(tasks)
             rig.advance(0.125)
@@ -434,12 +495,23 @@ def c_action(a):
     if k == "CN":
         return "(AClearNth %s)" % nlit(a[1])
     if k == "PQ":
-        return "(APostQ %s %s)" % (zlit(a[1]), blit(a[2]))
+        return "(APostQ %s %s %s)" % (zlit(a[1]), blit(a[2]), c_zz(a[3] if len(a) > 3 else []))
     if k == "PP":
         return "(APostP %s)" % zlit(a[1])
     if k == "RM":
         return "(ARemove %s)" % zlit(a[1])
     raise ValueError(a)
+
+
+def c_zz(kw):
+    return coqlist("(%s, %s)" % (zlit(k), zlit(v)) for k, v in kw)
+
+
+def c_handler(r):
+    ev, hid, prio, body, hkw, hq, cond = reg_fields(r)
+    return "(%s, mkH %s %s %s %s %s %s)" % (
+        zlit(ev), zlit(hid), zlit(prio), c_zz(hkw), "None" if hq is None else "(Some %s)" % nlit(hq),
+        "None" if cond is None else "(Some (%s, %s))" % (zlit(cond[0]), zlit(cond[1])), c_body(body))
 
 
 def c_body(b):
@@ -452,6 +524,8 @@ def c_obs(o):
     k = o[0]
     if k == "I":
         return "(LInvoke %s %s %s)" % (nlit(o[1]), zlit(o[2]), nlit(o[3]))
+    if k == "A":
+        return "(LArgs %s)" % c_zz(o[1])
     if k == "P":
         return "(LPlain %s %s)" % (nlit(o[1]), zlit(o[2]))
     if k == "CB":
@@ -474,14 +548,14 @@ def c_outcome(out):
 
 
 def c_input(regs, env):
-    r = coqlist("(%s, mkH %s %s %s)" % (zlit(ev), zlit(hid), zlit(prio), c_body(body)) for ev, hid, prio, body in regs)
+    r = coqlist(c_handler(x) for x in regs)
     e = coqlist(coqlist(c_action(a) for a in b) for b in env)
     return "(%s, %s)" % (r, e)
 
 
 def log_ok(out):
     for o in out["log"]:
-        if any(x is None for x in o[1:]):
+        if o[0] != "A" and any(x is None for x in o[1:]):
             return False
     return True
 
@@ -568,35 +642,71 @@ def oracle_log(out, regs, removed_possible, check_live=True):
     return fails
 
 
+def cond_holds(cond, merged):
+    if cond is None:
+        return True
+    d = dict((k, v) for k, v in merged)
+    return cond[0] in d and d[cond[0]] == cond[1]
+
+
 def oracle_queue(case, out):
     regs = {}
-    for ev, hid, prio, body in case["regs"]:
+    H = {}
+    for r in case["regs"]:
+        ev, hid, prio, body, hkw, hq, cond = reg_fields(r)
         regs.setdefault(ev, []).append((hid, prio))
+        H[hid] = (ev, hkw, hq, cond)
     fails = oracle_log(out, regs, True, check_live=not out.get("shared"))
-    if not out.get("err") and not out.get("loop_exception") and not out.get("boot_error") and not _uses_remove(case):
-        # without removals: the callback comes after ALL registered handlers of the event
-        ev_of = {}
-        # (posts carry the event in the script; recover it from the first invoked handler)
-        hev = {hid: ev for ev, hid, prio, body in case["regs"]}
-        cbs = set(o[1] for o in out["log"] if o[0] == "CB")
+    if out.get("err") or out.get("loop_exception") or out.get("boot_error"):
+        return fails
+    posts = out.get("posts", {})
+    log = out["log"]
+    # the arguments every queue-event handler receives: posted kwargs overridden by its registered kwargs, plus queue
+    nseen = max([H[h][2] + 1 for h in H if H[h][2] is not None] + [0])
+    for n, o in enumerate(log):
+        if o[0] != "I" or o[2] not in H or str(o[1]) not in posts:
+            continue
+        psn, hid, q = o[1], o[2], o[3]
+        ev, hkw, hq, cond = H[hid]
+        pkw, shq = posts[str(psn)][0], posts[str(psn)][1]
+        want = merged_expect(pkw, hkw)
+        got = log[n + 1][1] if n + 1 < len(log) and log[n + 1][0] == "A" else None
+        if got != want:
+            fails.append({"sig": "handler-kwargs", "what": "handler %s of post %s was called with %s; posted %s overridden by "
+                                                           "registered %s is %s" % (hid, psn, got, pkw, hkw, want)})
+        if not cond_holds(cond, want):
+            fails.append({"sig": "condition-ignored", "what": "handler %s (condition %s) invoked with %s" % (hid, cond, want)})
+        wantq = hq if hq is not None else shq
+        if wantq is None:
+            wantq = nseen
+            nseen += 1
+        if q != wantq:
+            fails.append({"sig": "handler-queue", "what": "handler %s of post %s got queue object #%s, expected #%s "
+                                                          "(registered %s, posted %s)" % (hid, psn, q, wantq, hq, shq)})
+    if not _uses_remove(case):
+        # without removals: the callback comes after ALL registered handlers of the event whose condition holds
+        cbs = set(o[1] for o in log if o[0] == "CB")
         inv = {}
-        for o in out["log"]:
+        for o in log:
             if o[0] == "I":
                 inv.setdefault(o[1], []).append(o[2])
         for psn in cbs:
-            if psn in inv:
-                ev = hev.get(inv[psn][0])
-                want = [h for h, p in sorted(regs.get(ev, []), key=lambda x: -x[1])]
-                if inv[psn] != want:
-                    fails.append({"sig": "callback-before-all-handlers",
-                                  "what": "post %s completed after handlers %s, registered (priority order): %s" % (psn, inv[psn], want)})
+            if str(psn) not in posts:
+                continue
+            pkw, _, ev = posts[str(psn)]
+            want = [h for h, p in sorted(regs.get(ev, []), key=lambda x: -x[1])
+                    if cond_holds(H[h][3], merged_expect(pkw, H[h][1]))]
+            if inv.get(psn, []) != want:
+                fails.append({"sig": "callback-before-all-handlers",
+                              "what": "post %s completed after handlers %s; registered with a true condition (priority "
+                                      "order): %s" % (psn, inv.get(psn, []), want)})
     return fails
 
 
 def _uses_remove(case):
     def has(acts):
         return any(a[0] == "RM" for a in acts)
-    return any(has(b) for b in case["env"]) or any(body[0] == "s" and has(body[1]) for _, _, _, body in case["regs"])
+    return any(has(b) for b in case["env"]) or any(r[3][0] == "s" and has(r[3][1]) for r in case["regs"])
 
 
 def shrink_queue(case):
@@ -609,17 +719,22 @@ def shrink_queue(case):
         for j in range(len(b)):
             if len(b) > 1:
                 yield dict(case, env=env[:i] + [b[:j] + b[j + 1:]] + env[i + 1:])
-    for i, (ev, hid, prio, body) in enumerate(regs):
+    for i, r in enumerate(regs):
+        r = reg_fields(r)
+        body = r[3]
         if body[0] == "s":
             for j in range(len(body[1])):
-                yield dict(case, regs=regs[:i] + [[ev, hid, prio, ["s", body[1][:j] + body[1][j + 1:]]]] + regs[i + 1:])
+                yield dict(case, regs=regs[:i] + [r[:3] + [["s", body[1][:j] + body[1][j + 1:]]] + r[4:]] + regs[i + 1:])
         else:
-            yield dict(case, regs=regs[:i] + [[ev, hid, prio, ["s", []]]] + regs[i + 1:])
+            yield dict(case, regs=regs[:i] + [r[:3] + [["s", []]] + r[4:]] + regs[i + 1:])
+        if r[4] or r[5] is not None or r[6] is not None:
+            yield dict(case, regs=regs[:i] + [r[:4] + [[], None, None]] + regs[i + 1:])
+            yield dict(case, regs=regs[:i] + [r[:4] + [r[4], None, None]] + regs[i + 1:])
 
 
 def nontrivial_queue(case, out):
     log = out.get("log", [])
-    nested = any(body[0] == "s" and any(a[0] == "PQ" for a in body[1]) for _, _, _, body in case["regs"])
+    nested = any(r[3][0] == "s" and any(a[0] == "PQ" for a in r[3][1]) for r in case["regs"])
     waited = any(o[0] == "W" for o in log)
     return bool(log) and (nested or waited)
 
@@ -716,6 +831,7 @@ def _run_mode_inner(case, rig, em, mode, run, before):
     try:
         for ev, hid, prio, body in case["regs"]:
             run.register(ev, hid, prio, body, mode_handler=(ev == 2))
+        run.posts = {}
         resolved = []
         for batch in case["env"]:
             if run.aborted:
@@ -744,6 +860,7 @@ def _run_mode_inner(case, rig, em, mode, run, before):
         out = run.observe(tasks)
         out["qposts"] = run.qposts
         out["shared"] = False
+        out["posts"] = {}
         out["resolved"] = resolved
         out["mode_active"] = bool(mode.active)
         out["mode_starting"] = bool(mode._starting)
@@ -767,9 +884,9 @@ def _run_mode_inner(case, rig, em, mode, run, before):
 def mode_regs(case):
     uwq = MODES[case["mode"]]
     script = "(HSync (mode_start_script %s false 2))" % blit(uwq)     # model of the FIXED Mode.start
-    regs = ["(1, mkH %s 100 %s)" % (zlit(MODE_HID), script)]         # registered at boot, before the case's handlers
-    for ev, hid, prio, body in case["regs"]:
-        regs.append("(%s, mkH %s %s %s)" % (zlit(ev), zlit(hid), zlit(prio), c_body(body)))
+    regs = ["(1, mkH %s 100 [] None None %s)" % (zlit(MODE_HID), script)]   # registered at boot, before the case's handlers
+    for r in case["regs"]:
+        regs.append(c_handler(r))
     return coqlist(regs)
 
 
